@@ -74,6 +74,8 @@ def desc_comp(c):
     import perceval.components.unitary_components as comp
     import perceval.components.non_unitary_components as nu
     from perceval.components import Circuit
+    if is_ff(c):
+        return desc_ff(c)
     if isinstance(c, comp.BS):
         kind = {"Rx": "bs_rx", "Ry": "bs_ry", "H": "bs_h"}[c.convention.name]
         return {"t": "leaf", "kind": kind,
@@ -104,6 +106,46 @@ def desc_comp(c):
         return {"t": "circ", "m": c.m, "name": c.name,
                 "items": [{"off": r[0], "c": desc_comp(sub)} for r, sub in c._components]}
     raise TypeError(f"cannot describe {type(c).__name__}")
+
+
+def is_ff(c):
+    from perceval.components import AFFConfigurator
+    return isinstance(c, AFFConfigurator)
+
+
+def f32(v):
+    """a configuration value of an FFConfigurator travels as a protobuf `float` (32 bits)"""
+    return rat(float(np.float32(v)))
+
+
+def desc_coe(v):
+    """what a circuit provider holds: a circuit (written wrapped in a `Circuit`) or an experiment"""
+    from perceval.components import Experiment
+    if isinstance(v, Experiment):
+        return {"e": desc_experiment(v)}
+    return {"c": wrap_desc(v, desc_comp(v))}
+
+
+def desc_ff(c):
+    from perceval.components import FFCircuitProvider
+    base = {"m": c.m, "name": c.name, "offset": c._offset, "blocked": bool(c._blocked_circuit_size),
+            "max": c._max_circuit_size}
+    if isinstance(c, FFCircuitProvider):
+        return dict(base, t="ffcp", default=desc_coe(c.default_circuit),
+                    map=sorted([[str(k), desc_coe(v)] for k, v in c._map.items()], key=lambda t: t[0]))
+    return dict(base, t="ffc", controlled=wrap_desc(c._controlled, desc_comp(c._controlled)),
+                linked=sorted(c._linked_vars),
+                default_config=sorted([n, f32(v)] for n, v in c._default_config.items()),
+                configs=sorted([[str(k), sorted([n, f32(v)] for n, v in cfg.items())]
+                                for k, cfg in c._configs.items()], key=lambda t: t[0]))
+
+
+def ff_payloads(c):
+    """the circuits / experiments a feed-forward configurator holds"""
+    from perceval.components import FFCircuitProvider
+    if isinstance(c, FFCircuitProvider):
+        return [c.default_circuit] + list(c._map.values())
+    return [c._controlled]
 
 
 def norm_desc(d):
@@ -245,7 +287,45 @@ def dump_type(c):
         return {"pbs": True}
     if t == "barrier":
         return {"barrier": bool(sub.visible)}
+    if t == "ff_circuit_provider":
+        d = sub.WhichOneof("default_circuit")
+        return {"ffcp": {"name": sub.name, "offset": sub.offset, "block": bool(sub.block_circuit_size),
+                         "default": {"unset": True} if d is None else dump_coe(sub, d),
+                         "configs": sorted([[k, dump_coe(v, v.WhichOneof("type"))] for k, v in sub.config_circ.items()],
+                                           key=lambda t: t[0])},
+                "wire": [k for k, _ in sub.config_circ.items()]}
+    if t == "ff_configurator":
+        return {"ffc": {"name": sub.name, "offset": sub.offset, "block": bool(sub.block_circuit_size),
+                        "controlled": dump_circuit(sub.controlled_circuit) if sub.HasField("controlled_circuit") else None,
+                        "default_config": dump_vars(sub.default_config),
+                        "configs": sorted([[k, dump_vars(v)] for k, v in sub.configs.items()], key=lambda t: t[0])}}
     raise TypeError(f"message type {t} is outside the model")
+
+
+def dump_coe(holder, which):
+    if which is None:
+        return {"unset": True}
+    if which == "circuit":
+        return dump_circuit(holder.circuit)
+    return {"experiment": dump_experiment(holder.experiment)}
+
+
+def dump_vars(v):
+    return sorted([k, rat(float(x))] for k, x in v.mapping.items())
+
+
+def is_ff_dump(c):
+    return "ffcp" in c["t"] or "ffc" in c["t"]
+
+
+def pb_payload_size(d):
+    """mode count (`.m`) of a dumped circuit-or-experiment"""
+    if "circuit" in d:
+        return d["circuit"]["n_mode"]
+    if "experiment" in d:
+        e = d["experiment"]
+        return e["n_mode"] - sum(1 for _, p in e["in"] if p[0] == "herald")
+    return None
 
 
 def dump_comp(c):
@@ -316,6 +396,7 @@ class Builder:
         self.params = {}
         self.exprs = {}
         self.mats = {}
+        self.ffs = []      # one record per feed-forward configurator built (spec, object, calls that raised, sizes)
 
     def var(self, name):
         if name not in self.params:
@@ -379,6 +460,8 @@ class Builder:
             return C.PBS()
         if t == "barrier":
             return C.Barrier(s["m"], s["visible"])
+        if t in ("ffcp", "ffc"):
+            return self.ff(s)
         if t == "circ":
             c = C.Circuit(s["m"]) if s.get("name") is None else C.Circuit(s["m"], name=s["name"])
             for it in s["items"]:
@@ -388,6 +471,42 @@ class Builder:
                     c.add(it["off"], sub, merge=False)
             return c
         raise ValueError(t)
+
+    def coe(self, s):
+        """a circuit (`c`) or an experiment (`e`) sharing this builder's parameters"""
+        if "c" in s:
+            return self.comp(s["c"])
+        return build_experiment(s["e"], self)
+
+    def ff(self, s):
+        from perceval.components import FFCircuitProvider, FFConfigurator
+        from perceval.utils import BasicState
+        rec = {"spec": s, "raised": [], "sizes": {}, "ids": {}, "placed": False}
+        if s["t"] == "ffcp":
+            d = self.coe(s["default"])
+            f = FFCircuitProvider(s["m"], s["offset"], d, s.get("name"))
+            rec["default_size"] = d.m
+            for i, op in enumerate(s["ops"]):
+                if op[0] == "block":
+                    f.block_circuit_size()
+                    continue
+                c = self.coe(op[2])
+                rec["sizes"][i] = c.m
+                try:
+                    f.add_configuration(BasicState(op[1]), c)
+                    rec["ids"][str(BasicState(op[1]))] = i + 1
+                except RuntimeError:       # "Circuit size mismatch": the caller catches it and goes on
+                    rec["raised"].append(i)
+        else:
+            f = FFConfigurator(s["m"], s["offset"], self.comp(s["controlled"]), dict(s["default_config"]),
+                               s.get("name"))
+            for st, cfg in s["configs"]:
+                f.add_configuration(BasicState(st), dict(cfg))
+            if s.get("block"):
+                f.block_circuit_size()
+        rec["obj"] = f
+        self.ffs.append(rec)
+        return f
 
     def finish(self):
         for name, v in self.env.items():
@@ -666,11 +785,219 @@ def gen_experiment_case(rng, depth_max, m_max):
             "env": gen_env(rng, names), "entry": rng.choice(["text", "textz", "file", "filez"])}
 
 
-def build_experiment(s):
+# --- feed-forward configurators ---------------------------------------------------------------------
+FF_STATES = {1: ["|0>", "|1>", "|2>"], 2: ["|0,0>", "|0,1>", "|1,0>", "|1,1>", "|2,0>"]}
+FF_NAMES = ["fa", "fb", "fc"]
+
+
+def coe_size(c):
+    if "c" in c:
+        return comp_size(c["c"])
+    return c["e"]["m"] - len(c["e"]["heralds"])
+
+
+def gen_sub_experiment(rng, w, names, depth):
+    """an experiment of `w` modes of interest, to be held by a circuit provider"""
+    h = 1 if rng.random() < 0.3 else 0
+    m = w + h
+    items = []
+    for _ in range(rng.randint(0, 3)):
+        c = gen_comp(rng, m, 0, names, rng.choice([0.0, 0.5]), False)
+        items.append({"off": rng.randint(0, m - comp_size(c)), "c": c})
+    s = {"fam": "experiment", "m": m, "name": rng.choice([None, None, "sub exp", "Experiment"]),
+         "noise": gen_noise(rng) if rng.random() < 0.15 else None, "items": items,
+         "heralds": [[m - 1, rng.choice([0, 1]), rng.choice([None, "h_s"])]] if h else [],
+         "ports": [], "dets": [], "ffs": [], "post_items": [], "input": None,
+         "filter": rng.choice([None, None, None, 0, 1]), "ps": None, "env": {}, "entry": "text"}
+    if depth > 0 and w >= 2 and rng.random() < 0.35:
+        place_ffs(rng, s, names, depth - 1, 1, free=list(range(w)))
+    return s
+
+
+def gen_coe(rng, w, names, depth, allow_exp=True):
+    r = rng.random()
+    if allow_exp and r < 0.25:
+        return {"e": gen_sub_experiment(rng, w, names, depth)}
+    if r < 0.45:      # a bare component (the writer wraps it into a Circuit)
+        if w == 1:
+            return {"c": gen_leaf(rng, names, 0.3, False, kinds=["ps"])}
+        if w == 2:
+            return {"c": gen_leaf(rng, names, 0.3, False, kinds=["bs_rx", "bs_ry", "bs_h"])}
+        p_ = list(range(w))
+        rng.shuffle(p_)
+        return {"c": {"t": "perm", "p": p_}}
+    return {"c": gen_circ(rng, w, rng.randint(0, 1), names, rng.choice([0.0, 0.5]), False,
+                          named=rng.random() < 0.4, max_items=3)}
+
+
+def ff_sim(s):
+    """the generator's own bookkeeping of a provider spec: (maximal size, stale)"""
+    cur, blocked, sizes = coe_size(s["default"]), False, {}
+    for op in s["ops"]:
+        if op[0] == "block":
+            blocked = True
+            continue
+        w = coe_size(op[2])
+        if blocked and w != cur:
+            continue
+        cur = max(cur, w)
+        sizes[op[1]] = w
+    return cur, cur != max([coe_size(s["default"])] + list(sizes.values()))
+
+
+def gen_ffcp(rng, k, wmax, names, depth, illegal=False, allow_exp=True):
+    """FFCircuitProvider: a default circuit and a history of add_configuration / block_circuit_size calls"""
+    while True:
+        d = rng.randint(1, wmax)
+        ops, cur, blocked = [], d, False
+        n_adds = rng.choice([0, 1, 1, 2, 2, 3])
+        block_at = rng.choice([None, None, 0, n_adds, n_adds, rng.randint(0, n_adds)])
+        for i in range(n_adds):
+            if block_at == i:
+                ops.append(["block"])
+                blocked = True
+            if blocked:
+                w = cur
+                if illegal and rng.random() < 0.5:
+                    w = rng.choice([v for v in range(1, wmax + 2) if v != cur])
+            else:
+                w = rng.randint(1, wmax)
+                cur = max(cur, w)
+            ops.append(["add", rng.choice(FF_STATES[k]), gen_coe(rng, w, names, depth, allow_exp)])
+        if block_at is not None and not blocked:
+            ops.append(["block"])
+        s = {"t": "ffcp", "m": k, "offset": 0, "name": rng.choice([None, None, "provider", "FFC", "ff 1"]),
+             "default": gen_coe(rng, d, names, depth, allow_exp), "ops": ops}
+        # a key assigned twice, the second time with a smaller circuit, leaves a maximal size that is not written
+        # (Props/C15: FF.replaced_key_loses_max) — boundary outside the generator
+        if not ff_sim(s)[1]:
+            return s
+
+
+def gen_ctrl_circuit(rng, w, names):
+    """a circuit of `w` modes in which every variable occurs once (FFConfigurator copies its circuit)"""
+    pool = list(names)
+    rng.shuffle(pool)
+    items = []
+    for _ in range(rng.randint(1, 3)):
+        kind = rng.choice(["ps", "bs_rx", "bs_h", "bs_ry"] if w >= 2 else ["ps"])
+        ps = []
+        for i in range(NSLOT[kind]):
+            if pool and rng.random() < (0.75 if i == 0 else 0.15) and not (kind == "ps" and i == 1):
+                ps.append({"k": "var", "n": pool.pop()})
+            else:
+                ps.append({"k": "fixed", "v": gen_value(rng, kind, i)})
+        c = {"t": "leaf", "kind": kind, "ps": ps}
+        items.append({"off": rng.randint(0, w - comp_size(c)), "c": c})
+    return {"t": "circ", "m": w, "name": rng.choice([None, None, "ctrl"]), "items": items}
+
+
+def spec_vars(c, out):
+    def go(s, d):
+        if s["t"] == "leaf":
+            for p_ in s["ps"]:
+                if p_["k"] == "var":
+                    out.add(p_["n"])
+    walk_comp_spec(c, go)
+    return out
+
+
+def gen_ffc(rng, k, w):
+    """FFConfigurator: a controlled circuit with variables and value tables (sent as 32-bit floats)"""
+    ctrl = gen_ctrl_circuit(rng, w, FF_NAMES)
+    vs = sorted(spec_vars(ctrl, set()))
+
+    def cfg():
+        return {n: rng.choice([0, 1, 0.0, round(rng.uniform(0, 6.2), rng.choice([1, 3, 6])), rng.uniform(0, 6.2)])
+                for n in vs}
+    states = rng.sample(FF_STATES[k], rng.randint(0, min(3, len(FF_STATES[k]))))
+    return {"t": "ffc", "m": k, "offset": 0, "name": rng.choice([None, None, "cfg", "FFC"]), "controlled": ctrl,
+            "default_config": cfg(), "configs": [[st, cfg()] for st in states], "block": rng.random() < 0.3}
+
+
+def gen_ff(rng, k, wmax, names, depth, illegal=False):
+    """-> (spec, width of the controlled modes)"""
+    if rng.random() < 0.62:
+        s = gen_ffcp(rng, k, wmax, names, depth, illegal)
+        return s, ff_sim(s)[0]
+    w = rng.randint(1, wmax)
+    return gen_ffc(rng, k, w), w
+
+
+def place_ffs(rng, s, names, depth, n_ff, free):
+    """put `n_ff` configurators into the experiment spec `s`: detectors on their modes, controlled modes photonic.
+    `free`: modes that may be used.  Returns the modes taken (classical, controlled)."""
+    m = s["m"]
+    classical, target = set(), set()
+    for _ in range(n_ff):
+        for attempt in range(6):
+            k = rng.choice([1, 1, 2])
+            ff, w = gen_ff(rng, k, 2, names, depth)
+            cands = []
+            for c0 in range(0, m - k + 1):
+                cm = set(range(c0, c0 + k))
+                if not cm <= set(free) or cm & target:
+                    continue
+                for o in range(-3, 4):
+                    tm = set(range(c0 + k + o, c0 + k + o + w)) if o >= 0 else set(range(c0 + o - w + 1, c0 + o + 1))
+                    if tm <= set(free) and not tm & (classical | cm):
+                        cands.append((c0, o, cm, tm))
+            if cands:
+                c0, o, cm, tm = rng.choice(cands)
+                ff["offset"] = o
+                classical |= cm
+                target |= tm
+                s["ffs"].append({"mode": c0, "ff": ff})
+                break
+    have = {mode for mode, _ in s["dets"]}
+    for mode in sorted(classical - have):
+        s["dets"].append([mode, gen_det(rng)])
+    s["dets"] = [d for d in s["dets"] if d[0] not in target]
+    return classical, target
+
+
+def gen_ff_experiment_case(rng, m_max):
+    """an experiment with feed-forward: components, detectors, one or two configurators (Experiment.add freezes
+    them), possibly components after them, heralds, input, filter"""
+    names = rng.sample(NAMES, rng.randint(1, 2))
+    m = rng.randint(3, max(3, m_max))
+    items = []
+    p_var = rng.choice([0.0, 0.5])
+    pool = names + ([rng.choice(FF_NAMES)] if rng.random() < 0.4 else [])
+    for _ in range(rng.randint(0, 4)):
+        c = gen_comp(rng, m, rng.randint(0, 1), pool, p_var, False)
+        items.append({"off": rng.randint(0, m - comp_size(c)), "c": c})
+    if len(pool) > len(names):
+        items.append({"off": rng.randint(0, m - 1),
+                      "c": {"t": "leaf", "kind": "ps", "ps": [{"k": "var", "n": pool[-1]}, {"k": "fixed", "v": 0.0}]}})
+    s = {"fam": "experiment", "m": m, "name": rng.choice([None, None, "exp ff", "Experiment"]),
+         "noise": gen_noise(rng) if rng.random() < 0.3 else None, "items": items, "heralds": [], "ports": [],
+         "dets": [[mode, gen_det(rng)] for mode in range(m) if rng.random() < 0.15], "ffs": [], "post_items": [],
+         "input": None, "filter": rng.choice([None, None, 0, 1, 2]), "ps": None,
+         "env": gen_env(rng, names), "entry": rng.choice(["text", "textz", "file", "filez"])}
+    classical, target = place_ffs(rng, s, names, 1, rng.choice([1, 1, 1, 2]), free=list(range(m)))
+    photonic = [i for i in range(m) if i not in classical and i not in {d[0] for d in s["dets"]}]
+    if photonic and rng.random() < 0.4:
+        s["post_items"].append({"off": rng.choice(photonic), "c": gen_leaf(rng, names, 0.3, False, kinds=["ps"])})
+    idle = [i for i in photonic if i not in target]
+    rng.shuffle(idle)
+    for _ in range(rng.choice([0, 0, 1])):
+        if idle and m - len(s["heralds"]) > 1:
+            s["heralds"].append([idle.pop(), rng.choice([0, 1]), rng.choice([None, "h_a"])])
+    if rng.random() < 0.5:
+        s["input"] = {"bs": gen_state_text(rng, m - len(s["heralds"]), "plain")}
+    return s
+
+
+def build_experiment(s, b=None):
+    """`b`: the builder of the enclosing object (a sub-experiment held by a circuit provider shares its parameters)"""
     pcvl = pc()
     from perceval.components import PortLocation
     from perceval.utils import BasicState, NoiseModel, PostSelect, SVDistribution
-    b = Builder(s["env"])
+    own = b is None
+    if own:
+        b = Builder(s["env"])
+        build_experiment.last_builder = b
     kw = {}
     if s["name"] is not None:
         kw["name"] = s["name"]
@@ -681,11 +1008,20 @@ def build_experiment(s):
         e.add(it["off"], b.comp(it["c"]))
     for mode, d in s["dets"]:
         e.add(mode, build_det(d))
+    for f in s.get("ffs", []):
+        n0 = len(b.ffs)
+        e.add(f["mode"], b.ff(f["ff"]))          # freezes the circuit size of the configurator
+        b.ffs[-1]["placed"] = True
+        b.ffs[-1]["top"] = own
+        assert len(b.ffs) >= n0 + 1
+    for it in s.get("post_items", []):
+        e.add(it["off"], b.comp(it["c"]))
     for mode, val, name in s["heralds"]:
         e.add_herald(mode, val, name)
     for mode, enc, name, loc in s["ports"]:
         e.add_port(mode, pcvl.Port(getattr(pcvl.Encoding, enc), name), location=getattr(PortLocation, loc))
-    b.finish()
+    if own:
+        b.finish()
     inp = s["input"]
     if inp is not None:
         if "bs" in inp:
@@ -835,6 +1171,8 @@ def same_obj(x, y):
         return None if type(x) is type(y) and desc_port(x) == desc_port(y) else "port differs"
     if isinstance(x, Experiment):
         return same_experiment(x, y)
+    if is_ff(x):
+        return same_ff(x, y)
     if isinstance(x, ACircuit):
         return same_circuit(x, y)
     if isinstance(x, AComponent):
@@ -912,6 +1250,96 @@ def same_circuit(x, y):
     return None
 
 
+def first_diff(dx, dy):
+    for k in dx:
+        if dx[k] != dy.get(k):
+            return k
+    return "shape"
+
+
+def same_coe(a, b):
+    from perceval.components import Experiment
+    if isinstance(a, Experiment):
+        return same_experiment(a, b)
+    return same_circuit(a, b)
+
+
+def same_ff(x, y):
+    """a feed-forward configurator: same fields, same circuits, same answers to `config_modes` / `configure`"""
+    from perceval.components import FFCircuitProvider
+    from perceval.utils import BasicState
+    if type(x) is not type(y):
+        return f"{type(x).__name__} became {type(y).__name__}"
+    dx, dy = norm_desc(desc_comp(x)), desc_comp(y)
+    if dx != dy:
+        k = first_diff(dx, dy)
+        return f"feed-forward configurator: {k} differs" + (f" ({dx[k]} became {dy.get(k)})" if k in
+                                                             ("name", "offset", "blocked", "max", "m") else "")
+    modes = tuple(range(7, 7 + x.m))
+    if x.config_modes(modes) != y.config_modes(modes):
+        return "config_modes differ"
+    provider = isinstance(x, FFCircuitProvider)
+    if not identity_ok({id(p): p for p in ff_named_params(y, [])}.values()):
+        return "one variable name is several Parameter objects after the round trip"
+    states = list(x._map if provider else x._configs) + [BasicState([3] * x.m)]
+    for st in states:
+        try:
+            cx_ = x.configure(st)
+            mx = None if provider else matrix_of(cx_)
+        except Exception:
+            continue
+        try:
+            cy_ = y.configure(st)
+            if provider:
+                r = same_coe(cx_, cy_)
+            else:       # the values travelled as 32-bit floats: compare the configured matrices within the text precision
+                my = matrix_of(cy_)
+                r = None if mx.shape == my.shape and np.allclose(mx, my, rtol=0, atol=5e-6) else "matrix differs"
+        except Exception as e:
+            return f"configure({st}) raises {exc_name(e)} after the round trip"
+        if r:
+            return f"configure({st}): {r}"
+    if not provider:
+        own = {p.name: p for p in named_params(y._controlled)}
+        for n, p_ in y._linked_vars.items():
+            if own.get(n) is not p_:
+                return "a linked variable is not the parameter of the controlled circuit"
+        r = same_circuit(x._controlled, y._controlled)
+        if r:
+            return "controlled circuit: " + r
+    return None
+
+
+def exp_extra(e):
+    """what `desc_experiment` (the model's abstract syntax) does not carry"""
+    return {"is_unitary": bool(e.is_unitary), "has_td": bool(e.has_td), "has_feedforward": bool(e.has_feedforward),
+            "detectors_injected": sorted(e.detectors_injected), "mode_type": [t.name for t in e._mode_type],
+            "m": e.m, "heralds": sorted([k, v] for k, v in e.heralds.items())}
+
+
+def ff_named_params(c, out):
+    from perceval.components import Experiment
+    for v in ff_payloads(c):
+        if isinstance(v, Experiment):
+            exp_named_params(v, out)
+        else:
+            out.extend(named_params(v))
+    return out
+
+
+def exp_named_params(e, out):
+    """every named Parameter object reachable from an experiment, through feed-forward configurators too"""
+    from perceval.components import IDetector
+    for _, c in e.components:
+        if isinstance(c, IDetector):
+            continue
+        if is_ff(c):
+            ff_named_params(c, out)
+        else:
+            out.extend(named_params(c))
+    return out
+
+
 def same_experiment(x, y):
     from perceval.components import Experiment
     if not isinstance(y, Experiment):
@@ -925,13 +1353,17 @@ def same_experiment(x, y):
     for k in dx:
         if dx[k] != dy[k]:
             return {"filter": f"min_photons_filter {dx[k]} became {dy[k]}"}.get(k, f"field {k} differs")
-    objs = []
-    from perceval.components import IDetector
-    for _, c in y.components:
-        if not isinstance(c, IDetector):
-            objs.extend(named_params(c))
+    ex, ey = exp_extra(x), exp_extra(y)
+    for k in ex:
+        if ex[k] != ey[k]:
+            return f"{k}: {ex[k]} became {ey[k]}"
+    objs = exp_named_params(y, [])
     if not identity_ok({id(p): p for p in objs}.values()):
         return "one variable name is several Parameter objects after the round trip"
+    for a, b in zip([c for _, c in x.components if is_ff(c)], [c for _, c in y.components if is_ff(c)]):
+        r = same_ff(a, b)
+        if r:
+            return r
     return None
 
 
@@ -991,6 +1423,137 @@ def explain(chk, op, obj, evs, enc_py, dec_py):
         if rep["enc"] == enc_py and dec == dec_py:
             return "+".join(FLAGS[i] for i in off)
     return None
+
+
+# ------------------------------------------------------------------------------------------------
+# feed-forward configurators against the model (Model/C15FF.lean) and against their message
+# ------------------------------------------------------------------------------------------------
+def ffcp_request(rec, wire=None):
+    s, f = rec["spec"], rec["obj"]
+    ops = []
+    for i, op in enumerate(s["ops"]):
+        ops.append(["block"] if op[0] == "block" else ["add", str(pc().BasicState(op[1])), [i + 1, rec["sizes"][i]]])
+    if rec["placed"]:
+        ops.append(["block"])          # Experiment.add
+    return {"op": "ffcp", "m": s["m"], "offset": s["offset"], "name": f.name, "default": [0, rec["default_size"]],
+            "ops": ops, "wire": wire}
+
+
+def ff_message_check(x, d):
+    """the dumped message of a configurator against the object (independent of the writer); None or a reason"""
+    from perceval.components import FFCircuitProvider, Experiment
+    if isinstance(x, FFCircuitProvider):
+        m = d.get("ffcp")
+        if m is None:
+            return "not a circuit-provider message"
+        if [m["name"], m["offset"], m["block"]] != [x.name, x._offset, bool(x._blocked_circuit_size)]:
+            return "name / offset / blocked flag"
+        want = sorted([[str(k), "experiment" if isinstance(v, Experiment) else "circuit", v.m] for k, v in x._map.items()])
+        got = [[k, "experiment" if "experiment" in v else "circuit", pb_payload_size(v)] for k, v in m["configs"]]
+        if want != got:
+            return "configured circuits (keys, kinds, sizes)"
+        if pb_payload_size(m["default"]) != x.default_circuit.m:
+            return "default circuit size"
+        return None
+    m = d.get("ffc")
+    if m is None:
+        return "not a configurator message"
+    if [m["name"], m["offset"], m["block"]] != [x.name, x._offset, bool(x._blocked_circuit_size)]:
+        return "name / offset / blocked flag"
+    if m["controlled"] is None or m["controlled"]["circuit"]["n_mode"] != x._controlled.m:
+        return "controlled circuit"
+    if m["default_config"] != sorted([n, f32(v)] for n, v in x._default_config.items()):
+        return "default configuration"
+    if m["configs"] != sorted([[str(k), sorted([n, f32(v)] for n, v in cfg.items())] for k, cfg in x._configs.items()],
+                              key=lambda t: t[0]):
+        return "configurations"
+    return None
+
+
+def ffcp_model_check(chk, rec, d, y, reader_raised):
+    """the bookkeeping of an FFCircuitProvider (object after its history of calls, message, reader) against the model.
+    -> (None | reason, reply)"""
+    x = rec["obj"]
+    wire = d["wire"] if d is not None else None
+    rep = chk.lean.ask(ffcp_request(rec, wire))
+    if "err" in rep:
+        return f"driver: {rep['err']}", rep
+    if rep["raised"] != rec["raised"]:
+        return f"calls that raise: code {rec['raised']}, model {rep['raised']}", rep
+    st = rep["state"]
+    real_map = [[str(k), rec["ids"].get(str(k)), v.m] for k, v in x._map.items()]
+    if [st["max"], st["blocked"], st["map"]] != [x._max_circuit_size, bool(x._blocked_circuit_size), real_map]:
+        return "state of the provider after its history of calls", rep
+    if d is not None:
+        m = d["ffcp"]
+        enc = rep["enc"]
+        got = [m["name"], m["offset"], m["block"], pb_payload_size(m["default"]),
+               sorted([k, pb_payload_size(v)] for k, v in m["configs"])]
+        want = [enc["name"], enc["offset"], enc["block"], enc["default"][1], sorted([k, sz] for k, _, sz in enc["configs"])]
+        if got != want:
+            return "the message", rep
+    if reader_raised:
+        if rep["dec"] is not None:
+            return "the reader raised, the model's reader does not", rep
+    elif y is not None:
+        dec = rep["dec"]
+        if dec is None:
+            return "the model's reader raises, the reader did not", rep
+        if [dec["name"], dec["offset"], dec["max"], dec["blocked"], sorted([k, sz] for k, _, sz in dec["map"])] != \
+                [y.name, y._offset, y._max_circuit_size, bool(y._blocked_circuit_size),
+                 sorted([str(k), v.m] for k, v in y._map.items())]:
+            return "the rebuilt provider", rep
+    return None, rep
+
+
+def ff_raise_signature(chk, recs, e):
+    """the reader raised on a legally built object: which known reordering of the reader reproduces it?"""
+    if not isinstance(e, RuntimeError) or "size mismatch" not in str(e):
+        return None
+    for rec in recs:
+        if rec["spec"]["t"] != "ffcp":
+            continue
+        rep = chk.lean.ask(ffcp_request(rec))
+        if "err" not in rep and rep["dec"] is not None and rep["dec_flag_first"] is None:
+            return "ffcp-flag-before-configs"
+    return None
+
+
+def ff_stats(chk, rec, where):
+    s = rec["spec"]
+    chk.count("ff", s["t"] + ":" + where)
+    chk.branch("ff-" + where)
+    if s["offset"] < 0:
+        chk.branch("ff-negative-offset")
+    if s["t"] == "ffc":
+        chk.branch("ffc-configurator")
+        if s["configs"]:
+            chk.branch("ffc-configs")
+        return
+    f = rec["obj"]
+    sizes = {v.m for v in f._map.values()}
+    if f._blocked_circuit_size and sizes - {rec["default_size"]}:
+        chk.branch("ffcp-frozen-other-size")       # the default circuit is not the widest and the size is blocked
+    seen_block, keys = False, set()
+    for i, op in enumerate(s["ops"]):
+        if op[0] == "block":
+            seen_block = True
+            continue
+        if seen_block:
+            chk.branch("ffcp-add-after-block")
+        if op[1] in keys:
+            chk.branch("ffcp-replaced-key")
+        keys.add(op[1])
+        if "e" in op[2]:
+            chk.branch("ffcp-experiment-payload")
+            if op[2]["e"].get("ffs"):
+                chk.branch("ff-nested")
+    if "e" in s["default"]:
+        chk.branch("ffcp-experiment-payload")
+        if s["default"]["e"].get("ffs"):
+            chk.branch("ff-nested")
+    if rec["raised"]:
+        chk.branch("ffcp-rejected-add")
 
 
 # ------------------------------------------------------------------------------------------------
@@ -1180,17 +1743,30 @@ def shrink_circuit(chk, spec, tmpdir, sig_kind):
     return cur
 
 
+def strip_ff(d):
+    """an experiment description / message dump without its feed-forward configurators (outside `Model/C15.lean`)"""
+    if d is None:
+        return None
+    d = dict(d)
+    d["comps"] = [c for c in d["comps"] if not (c["c"]["t"] in ("ffcp", "ffc") if "c" in c else is_ff_dump(c))]
+    return d
+
+
 def judge_experiment(chk, spec, tmpdir, stats=False):
     from perceval.serialization import _schema_circuit_pb2 as pb
     from perceval.components import IDetector
     try:
         x = build_experiment(spec)
+        recs = build_experiment.last_builder.ffs
         dx = desc_experiment(x)
     except Exception as e:
         chk.branch("gen-reject")
         chk.count("gen_reject", exc_name(e))
+        if spec.get("ffs"):
+            chk.count("gen_reject_ff", exc_name(e) + ": " + str(e)[:60])
         return None
     entry = spec["entry"]
+    top = [r for r in recs if r.get("top")]
     if stats:
         count_entry(chk, entry)
         chk.count("filter", spec["filter"])
@@ -1206,6 +1782,22 @@ def judge_experiment(chk, spec, tmpdir, stats=False):
         if any(it["c"]["t"] == "leaf" and it["c"]["kind"] in ("td", "lc") for it in spec["items"]):
             chk.branch("experiment-non-unitary")
         chk.count("input", "none" if spec["input"] is None else list(spec["input"])[0])
+        for r in recs:
+            ff_stats(chk, r, "in-experiment" if r.get("top") else "nested")
+        if len(top) >= 2:
+            chk.branch("ff-two-in-experiment")
+            if len(x.detectors_injected) < sum(r["obj"].m for r in top):
+                chk.branch("ff-shared-detector")
+        if top:
+            if spec.get("post_items"):
+                chk.branch("ff-then-component")
+            shared = {p.name for p in exp_named_params(x, [])} & set(FF_NAMES)
+            main = set()
+            for _, c in x.components:
+                if not isinstance(c, IDetector) and not is_ff(c):
+                    main |= {p.name for p in named_params(c)}
+            if shared & main:
+                chk.branch("ff-shared-variable")
     evs = {}
     for _, c in x.components:
         if not isinstance(c, IDetector):
@@ -1228,27 +1820,53 @@ def judge_experiment(chk, spec, tmpdir, stats=False):
             enc_py = dump_experiment(serialize_experiment(x))
         except Exception:
             enc_py = None
-    rep = chk.lean.ask({"op": "experiment", "cfg": FIXED, "obj": dx, "evs": evs})
+    dx_l, enc_l, dec_l = strip_ff(dx), strip_ff(enc_py), strip_ff(dec_py)
+    rep = chk.lean.ask({"op": "experiment", "cfg": FIXED, "obj": dx_l, "evs": evs})
     if "err" in rep:
         return ("broken", "driver-rejects", f"driver: {rep['err']}")
-    agree = rep["enc"] == enc_py and sort_ports(rep["dec"]) == dec_py
+    agree = rep["enc"] == enc_l and sort_ports(rep["dec"]) == dec_l
+    # feed-forward configurators: message against the object, provider bookkeeping against Model/C15FF.lean
+    ff_bad = None
+    if top and enc_py is not None:
+        dumps = [c["t"] for c in enc_py["comps"] if is_ff_dump(c)]
+        ys = [c for _, c in y.components if is_ff(c)] if raised is None else []
+        if len(dumps) != len(top) or (raised is None and len(ys) != len(top)):
+            ff_bad = ("model-vs-code:ff-message", "number of feed-forward configurators")
+        else:
+            for i, (r, d) in enumerate(zip(top, dumps)):
+                why = ff_message_check(r["obj"], d)
+                if why:
+                    ff_bad = ("model-vs-code:ff-message", why)
+                    break
+                if r["spec"]["t"] == "ffcp":
+                    why, _ = ffcp_model_check(chk, r, d, ys[i] if ys else None, False)
+                    if why:
+                        ff_bad = ("model-vs-code:ffcp", why)
+                        break
     if raised is not None:
         bad = f"round trip raises {exc_name(raised)}: {str(raised)[:120]}"
     else:
         bad = same_experiment(x, y)
-    if bad is None and agree:
+    if bad is None and agree and ff_bad is None:
         if stats:
             chk.case(("experiment", json.dumps(spec, sort_keys=True)[:400]),
                      nontrivial=bool(spec["items"]) and (bool(spec["heralds"]) or bool(spec["dets"]) or
                                                          spec["filter"] is not None),
                      sample={"family": "experiment", "m": spec["m"], "heralds": len(spec["heralds"]),
-                             "filter": spec["filter"], "entry": entry})
+                             "filter": spec["filter"], "entry": entry, "ff": len(recs)})
         return None
     if bad is not None:
-        sig = (None if agree else explain(chk, "experiment", dx, evs, enc_py, dec_py)) or "experiment-roundtrip"
-        return ("violation", sig, f"experiment ({entry}): {bad}")
-    return ("broken", "model-vs-code:experiment",
-            "model and code disagree on " + ("the message" if rep["enc"] != enc_py else "the rebuilt experiment")
+        sig = None
+        if raised is not None:
+            sig = ff_raise_signature(chk, recs, raised)
+        if sig is None and not agree:
+            sig = explain(chk, "experiment", dx_l, evs, enc_l, dec_l)
+        return ("violation", sig or "experiment-roundtrip", f"experiment ({entry}): {bad}")
+    if not agree:
+        return ("broken", "model-vs-code:experiment",
+                "model and code disagree on " + ("the message" if rep["enc"] != enc_l else "the rebuilt experiment")
+                + " but the round trip is semantically correct")
+    return ("broken", ff_bad[0], "feed-forward configurator: model/object and code disagree on " + ff_bad[1]
             + " but the round trip is semantically correct")
 
 
@@ -1262,9 +1880,9 @@ def shrink_experiment(chk, spec, tmpdir, kind):
             return False
         return r is not None and r[0] == kind
 
-    for key in ("items", "dets", "heralds", "ports"):
+    for key in ("post_items", "ffs", "items", "dets", "heralds", "ports"):
         i = 0
-        while i < len(cur[key]):
+        while i < len(cur.get(key, [])):
             cand = copy.deepcopy(cur)
             del cand[key][i]
             if key == "heralds" and cand["input"] is not None:
@@ -1273,6 +1891,18 @@ def shrink_experiment(chk, spec, tmpdir, kind):
                 cur = cand
             else:
                 i += 1
+    for fi in range(len(cur.get("ffs", []))):
+        if cur["ffs"][fi]["ff"]["t"] != "ffcp":
+            continue
+        i = 0
+        while i < len(cur["ffs"][fi]["ff"]["ops"]):
+            cand = copy.deepcopy(cur)
+            del cand["ffs"][fi]["ff"]["ops"][i]
+            if fails(cand):
+                cur = cand
+            else:
+                i += 1
+
     def circs(sp, out):
         if sp["t"] == "circ":
             out.append(sp)
@@ -1312,10 +1942,10 @@ def shrink_experiment(chk, spec, tmpdir, kind):
 
 
 # --- stand-alone objects -------------------------------------------------------------------------
-def gen_simple_case(rng):
-    fam = rng.choice(["det", "det", "port", "herald", "noise", "noise", "matrix", "matrix", "state", "state",
+def gen_simple_case(rng, fam=None):
+    fam = fam or rng.choice(["det", "det", "port", "herald", "noise", "noise", "matrix", "matrix", "state", "state",
                       "sv", "sv", "svd", "bsd", "bsd", "bsc", "bss", "bss", "postselect", "component",
-                      "container", "container"])
+                      "container", "container", "ff", "ff", "ff", "ff", "ff", "ff"])
     s = {"fam": fam, "entry": rng.choice(["text", "textz", "default", "file", "filez"])}
     m = rng.randint(1, 4)
     if fam == "det":
@@ -1359,6 +1989,11 @@ def gen_simple_case(rng):
     elif fam == "component":
         s["c"] = gen_leaf(rng, ["a"], rng.choice([0.0, 0.7]), False, kinds=["td", "lc"])
         s["env"] = {"a": rng.choice([None, 0.25])}
+    elif fam == "ff":
+        names = rng.sample(NAMES, rng.randint(1, 2))
+        s["ff"], _ = gen_ff(rng, rng.choice([1, 1, 2]), 3, names, 1, illegal=True)
+        s["ff"]["offset"] = rng.randint(-3, 3)
+        s["env"] = gen_env(rng, names)      # the variables of a controlled circuit hold no value (boundary, see run)
     else:
         depth = rng.randint(1, 3)
         s["tree"] = gen_container(rng, depth)
@@ -1367,7 +2002,7 @@ def gen_simple_case(rng):
 
 def gen_container(rng, depth):
     def leaf():
-        t = gen_simple_case(rng)
+        t = gen_simple_case(rng, "ff" if rng.random() < 0.15 else None)
         while t["fam"] in ("container",):
             t = gen_simple_case(rng)
         return {"leaf": t}
@@ -1428,6 +2063,12 @@ def build_simple(s):
         c = b.comp(s["c"])
         b.finish()
         return c
+    if fam == "ff":
+        b = Builder(s["env"])
+        c = b.ff(s["ff"])
+        b.finish()
+        build_simple.last_builder = b
+        return c
     if fam == "container":
         return build_tree(s["tree"])
     raise ValueError(fam)
@@ -1475,7 +2116,10 @@ def judge_simple(chk, spec, tmpdir, stats=False):
     except Exception as e:
         chk.branch("gen-reject")
         chk.count("gen_reject", exc_name(e))
+        if fam == "ff":
+            chk.count("gen_reject_ff", exc_name(e) + ": " + str(e)[:60])
         return None
+    recs = build_simple.last_builder.ffs if fam == "ff" else []
     if stats:
         count_entry(chk, entry)
         chk.count("family", fam)
@@ -1483,6 +2127,10 @@ def judge_simple(chk, spec, tmpdir, stats=False):
             chk.branch("container")
             for f in leaf_fams(spec["tree"], []):
                 chk.count("container_leaf", f)
+                if f == "ff":
+                    chk.branch("ff-in-container")
+        for r in recs:
+            ff_stats(chk, r, "standalone" if r is recs[-1] else "nested")
     # what the original holds, before the writer touches it (serialize_statevector normalises in place)
     x0 = build_simple(spec) if fam in ("sv", "svd", "container") else x
     try:
@@ -1494,6 +2142,8 @@ def judge_simple(chk, spec, tmpdir, stats=False):
             tags = sorted(t for t in TAG_OF.values()
                           if not chk.lean.ask({"op": "kw", "tag": t}).get("accepted_as_found", True))
             sig = "compress-keyword" if tags else sig
+        if fam == "ff":
+            sig = ff_raise_signature(chk, recs, e) or sig
         return ("violation", sig, f"{fam} ({entry}): round trip raises {exc_name(e)}: {str(e)[:140]}")
     bad = same_obj(x0, y)
     if bad is not None:
@@ -1552,6 +2202,17 @@ def judge_simple(chk, spec, tmpdir, stats=False):
         evs = [[k, v] for k, v in sorted(expr_values(x).items())]
         reqs.append({"op": "component", "cfg": FIXED, "obj": desc_comp(x), "evs": evs})
         checks.append((dump_comp(msg), desc_comp(y)))
+    elif fam == "ff":
+        d = dump_comp(pb_of(pb.Component, payload))
+        if d["start"] != 0 or d["n"] != x.m:
+            return ("broken", "model-vs-code:ff-message", "ff: starting mode / mode count of the component message")
+        why = ff_message_check(x, d["t"])
+        if why:
+            return ("broken", "model-vs-code:ff-message", f"ff: the message disagrees with the object on {why}")
+        if spec["ff"]["t"] == "ffcp":
+            why, _ = ffcp_model_check(chk, recs[-1], d["t"], y, False)
+            if why:
+                return ("broken", "model-vs-code:ffcp", f"ff: model and code disagree on {why}")
     nums = text_numbers(payload) if fam in ("sv", "svd", "bsd") else []
     for tx in nums[:12]:
         fr = abs(Fraction(tx))
@@ -1777,7 +2438,10 @@ def run(chk: core.Check):
                 "named and polarised Unitary, permutations, barriers, polarisation components; experiments with "
                 "heralds, ports, detectors, noise, input, filter (None/0/n), post-selection, TD/LC; detectors, ports, "
                 "heralds, noise models, numeric and symbolic matrices, basic states with annotations, state vectors, "
-                "the three distributions, sample lists, post-selections, dict/list containers; entry points text "
+                "the three distributions, sample lists, post-selections, dict/list containers; feed-forward circuit "
+                "providers (histories of add_configuration / block_circuit_size calls, circuits and experiments of "
+                "different sizes as payloads, frozen or not, nested) and configurators, stand-alone, in containers and "
+                "inside experiments (one or two, shared detectors, components after them, shared variables); entry points text "
                 "(compress on/off/default), binary, base64, file; plus tampered messages. distinct = distinct "
                 "(family, spec, entry); non-trivial = nested or parametrised circuit / experiment with components "
                 "and heralds, detectors or filter / any stand-alone object except bare ports and post-selections")
@@ -1785,7 +2449,12 @@ def run(chk: core.Check):
         "protobuf wire encoding, base64, zlib and json are trusted (DESIGN section 8); the model starts at message fields",
         "float(expression) (sympy) is an external function; Expression sub-parameters are plain Parameters",
         "Parameter bounds (min/max/periodic) are not serialised and not compared",
-        "feed-forward configurators are outside the model and the generator",
+        "feed-forward: the size bookkeeping of FFCircuitProvider (history of add_configuration / block_circuit_size "
+        "calls, message, reader) is modelled (Model/C15FF.lean); its payloads and FFConfigurator are checked by the "
+        "direct round-trip oracle only; FFConfigurator values travel as 32-bit floats (compared as such, generated in "
+        "[0, 6.2] where that is below the 1e-6 text precision)",
+        "a provider key assigned twice, the second time with a smaller circuit than the one that set the maximal size, "
+        "is a boundary outside the generator: the maximal size is not serialised (theorem FF.replaced_key_loses_max)",
         "Detector(max_detections=0), empty parameter names, constant Expressions and names sympy treats as constants "
         "are boundary inputs outside the generator",
     ]
@@ -1793,12 +2462,18 @@ def run(chk: core.Check):
                              "unitary-polarised", "unitary-named", "filter-zero", "filter-none", "max-error-zero",
                              "max-error-set", "compress-on", "compress-off", "binary-entry", "file-entry",
                              "herald-named", "herald-auto", "detector-unset-wires", "experiment-non-unitary",
-                             "malformed-rejected", "grid-small", "bss-repeat", "container", "symbolic-rectangular"]
+                             "malformed-rejected", "grid-small", "bss-repeat", "container", "symbolic-rectangular",
+                             "ff-standalone", "ff-in-experiment", "ff-nested", "ff-in-container", "ff-negative-offset",
+                             "ff-two-in-experiment", "ff-shared-detector", "ff-then-component", "ff-shared-variable",
+                             "ffcp-frozen-other-size", "ffcp-add-after-block", "ffcp-replaced-key",
+                             "ffcp-experiment-payload", "ffcp-rejected-add", "ffc-configurator", "ffc-configs"]
     chk.lean = core.LeanDriver("C15")
     rng = chk.rng
     pc().random_seed(chk.seed)
     n_circ = chk.pick(450, 9000)
     n_exp = chk.pick(200, 4000)
+    n_ffexp = chk.pick(200, 3000)
+    n_ff = chk.pick(150, 2500)
     n_simple = chk.pick(500, 10000)
     n_mal = chk.pick(150, 3000)
     n_grid = chk.pick(400, 6000)
@@ -1813,8 +2488,12 @@ def run(chk: core.Check):
             specs.append(gen_circuit_case(rng, depth_max, m_max))
         for _ in range(n_exp):
             specs.append(gen_experiment_case(rng, min(depth_max, 2), m_max))
+        for _ in range(n_ffexp):
+            specs.append(gen_ff_experiment_case(rng, m_max))
         for _ in range(n_simple):
             specs.append(gen_simple_case(rng))
+        for _ in range(n_ff):
+            specs.append(gen_simple_case(rng, "ff"))
         for _ in range(n_mal):
             s = gen_circuit_case(rng, 2, m_max)
             s["fam"] = "malformed"
